@@ -108,7 +108,7 @@ Record DynInv (s : core) : Prop := {
   dy_act : active_ref s = 1 ->
            1000 <= active_fd s /\
            (exists v, k_open (kern s) (active_fd s) = Some v /\
-                      (vkind v = K_EVENTFD \/ vkind v = K_PIPE_R)) /\
+                      ((vkind v = K_EVENTFD /\ active_wr s = -1) \/ (vkind v = K_PIPE_R /\ active_wr s <> -1))) /\
            (active_wr s = -1 \/ pipe_ok (kern s) (active_fd s) (active_wr s));
   dy_actwr : active_ref s = 0 -> active_wr s = -1;
   dy_actraw : active_ref s = 1 -> forall j, rw_reg s j = true -> rw_rfd s j <> active_fd s;
